@@ -10,6 +10,7 @@ independent defect in the same outline is not masked by the first and cascades o
 """
 from __future__ import annotations
 
+import os
 import random
 import re
 
@@ -21,11 +22,13 @@ from vf.gen import c02_outline as G
 LEVEL = "exploration"
 RULE = ("outlines of headings (levels 1..6, 12 title decorations), */# list lines (30 markers of depth<=4, 12 item "
         "decorations), rules and 16 balanced filler blocks, every line carrying a unique id; bounded-exhaustive parts: "
-        "all level sequences up to length 3 (quick) / 4 (thorough) x rule at every position x filler kind, all marker "
-        "sequences up to 2 (quick) / 3 (thorough) lines, with every filler kind between the last two lines; "
-        "sampled part: random outlines up to 10 headings / 12 list lines / 22 lines, optional balanced <div> wrapping "
-        "a run of lines, under parse / pre_expand / expand_all.  distinct = rendered text + mode; non-trivial = the "
-        "outline has >=2 structural lines (heading / list line / rule)")
+        "all level sequences up to length 3 (quick) / 4 (thorough) x rule at every position x gap filler (quick: "
+        "paragraph, nothing; thorough: every catalogue block, nothing), all marker sequences up to 2 (quick) / 3 "
+        "(thorough) lines, consecutive and with a filler block between the last two lines (quick: every catalogue "
+        "block; thorough: 6 of them); sampled part: random outlines up to 10 headings / 12 list lines / 22 lines, "
+        "optional balanced <div> wrapping a run of lines, under parse / pre_expand / expand_all, with/without final "
+        "newline.  distinct = rendered text + mode; non-trivial = the outline has >=2 structural lines (heading / "
+        "list line / rule)")
 ASSUMPTIONS = [
     "ids H<n>/I<n>/F<n> identify tree nodes: the catalogue texts contain no other token of that shape",
     "'balanced filler' is read as the 16-block catalogue in vf/gen/c02_outline.py (complete lines, all markup closed in the block); "
@@ -74,6 +77,7 @@ def exhaustive(tier, total):
 
 def shards(tier, seed):
     per = {"quick": QUICK_SAMPLED, "thorough": THOROUGH_SAMPLED}[tier]
+    per = int(os.environ.get("VERIF_C02_N", per))  # development only: smaller sampled part
     return [{"seed": seed * 1000 + i, "n": per, "idx": i, "nsh": NSH, "tier": tier} for i in range(NSH)]
 
 
